@@ -1,0 +1,14 @@
+//go:build verif && verifenc
+
+package aztec
+
+// VerifHighLevel exposes the bit stream produced by the high-level encoder
+// (before stuffing and error correction) to the conformance harness.
+func VerifHighLevel(data []byte) []bool {
+	bits := highlevelEncode(data)
+	out := make([]bool, bits.Len())
+	for i := range out {
+		out[i] = bits.GetBit(i)
+	}
+	return out
+}
